@@ -493,3 +493,14 @@ def c17(tier: str) -> int:
     rep.assumptions += ['programs of depth <= 2 (quick) / 3 (thorough) from the production rules of MC_Program.tla; single inheritance',
                         'generic bases are always subscripted by their subclasses']
     return rep.finish()
+
+
+@check('C18')
+def c18(tier: str) -> int:
+    from . import handlers
+    rep = Report('C18', tier)
+    handlers.run(rep, tier)
+    rep.assumptions += ['the registered global handler is registered once per process and switched by the driver; the converter '
+                        'cache is cleared between configurations (the registry is configuration, not history)',
+                        'marker converters make the converter in use observable in the result']
+    return rep.finish()
